@@ -7,7 +7,7 @@ sys.path.insert(0, os.path.join(HERE, '..'))
 sys.path.insert(0, os.path.join(HERE, '..', '..', 'tools'))
 import common
 import native
-from cxx2c import Rewriter, CClass, slice_block, tag_loops, ExtractionBreak, load, mask, strip_comments
+from cxx2c import Rewriter, CClass, slice_block, tag_loops, ExtractionBreak, load, mask, strip_comments, cpp_resolve, match_close
 from prove import Job
 
 SRW = 'include/oneapi/tbb/spin_rw_mutex.h'
@@ -63,7 +63,7 @@ def srw_like(rel, cls_sig, prefix, methods, rw, nop_extra=()):
         t = rw.sub(t, r'^(void|bool) (\w+)\(\)', r'\1 %s_\2(void)' % prefix, 1, 1, name='sig')
         t = rw.sub(t, r'call_itt_notify\([^;]*\);', 'RG_NOP();', 0, name='itt->RG_NOP')
         for p in nop_extra:
-            t = rw.sub(t, p[0], p[1], 0, name='wait/notify->RG_NOP')
+            t = rw.sub(t, p[0], p[1], 0, name='wait/notify -> STUB_wait / STUB_notify (callee stubs)')
         t = rw.asserts(t, 0)
         f = 'm_state'
         t = rw.sub(t, r'\b%s\.load\([^)]*\)' % f, 'ATOMIC_LOAD(%s)' % f, 0, name='atomic-load')
@@ -116,7 +116,8 @@ def extract(ctx):
     RWM_METHODS = [('lock', r'void lock\(\)', None, 1), ('try_lock', r'bool try_lock\(\)', None, 0), ('unlock', r'void unlock\(\)', None, 0),
                    ('lock_shared', r'void lock_shared\(\)', None, 1), ('try_lock_shared', r'bool try_lock_shared\(\)', None, 0), ('unlock_shared', r'void unlock_shared\(\)', None, 0),
                    ('upgrade', r'bool upgrade\(\)', None, 2), ('downgrade', r'void downgrade\(\)', None, 0)]
-    NOPS = [(r'auto wakeup_condition = \[&\] \{[^}]*\};', 'RG_NOP();'), (r'adaptive_wait_on_address\([^;]*\);', 'RG_NOP();'), (r'r1::notify_by_address(?:_all)?\([^;]*\);', 'RG_NOP();'),
+    NOPS = [(r'auto wakeup_condition = \[&\] \{[^}]*\};', 'RG_NOP();'), (r'adaptive_wait_on_address\(this, wakeup_condition, (\w+)\);', r'STUB_wait(\1);'),
+            (r'r1::notify_by_address\(this, (\w+)\);', r'STUB_notify(\1);'), (r'r1::notify_by_address_all\(this\);', 'STUB_notify_all();'),
             (r'state_type has_writer = WRITER \| WRITER_PENDING;', 'state_type has_writer = WRITER | WRITER_PENDING;'),
             (r'__TBB_ASSERT\(m_state\.load\(std::memory_order_relaxed\) & WRITER, nullptr\),', '__TBB_ASSERT(m_state.load(std::memory_order_relaxed) & WRITER, nullptr);'),
             (r'state_type curr_state = \(m_state &= READERS \| WRITER_PENDING\);', 'state_type curr_state = (m_state &= (READERS | WRITER_PENDING));'),
@@ -125,6 +126,9 @@ def extract(ctx):
     for pat, what in ((r'static constexpr state_type WRITER = 1;', 'WRITER'), (r'static constexpr state_type WRITER_PENDING = 2;', 'WRITER_PENDING'), (r'static constexpr state_type ONE_READER = 4;', 'ONE_READER')):
         if not re.search(pat, load(RWM)):
             raise ExtractionBreak('rw_mutex.h: constant %s changed' % what)
+    for pat in (r'static constexpr context_type WRITER_CONTEXT = 0;', r'static constexpr context_type READER_CONTEXT = 1;'):
+        if not re.search(pat, load(RWM)):
+            raise ExtractionBreak('rw_mutex.h: context constants changed')
     closed_world(RWM, r'class rw_mutex \{', 'm_state', [(n, sg) for n, sg, _, _ in RWM_METHODS],
                  extra_ok=(r'rw_mutex\(\) noexcept : m_state\(0\)', r'~rw_mutex', r'__TBB_ASSERT\(!m_state', r'std::atomic<state_type> m_state;'))
     txt, sl = srw_like(RWM, r'class rw_mutex \{', 'rw_mutex', RWM_METHODS, rw, nop_extra=NOPS)
@@ -176,6 +180,424 @@ def extract(ctx):
     return sliced, fired
 
 
+# =====================================================================================================================
+# queuing_rw_mutex (src/tbb/queuing_rw_mutex.cpp): every function of queuing_rw_mutex_impl + scoped_lock::initialize
+# =====================================================================================================================
+QRWH = 'include/oneapi/tbb/queuing_rw_mutex.h'
+QRWC = 'src/tbb/queuing_rw_mutex.cpp'
+QRW_IMPL = r'struct queuing_rw_mutex_impl \{'
+NODE_T = r'(?:d1::)?queuing_rw_mutex::scoped_lock'
+QRW_FIELDS = ['my_prev', 'my_next', 'my_state', 'my_going', 'my_internal_lock', 'q_tail']
+QRW_HELPERS = ['try_acquire_internal_lock', 'acquire_internal_lock', 'release_internal_lock', 'wait_for_release_of_internal_lock',
+               'unblock_or_wait_on_internal_lock', 'get_flag']
+QRW_OPS = ('LOAD', 'STORE', 'XCHG', 'CAS', 'CASV', 'FETCH_ADD', 'SPIN_WHILE_EQ', 'SPIN_UNTIL_EQ')
+_MO = re.compile(r'^\s*(?:std::)?memory_order[_:]*\w+\s*$')
+_NS = r'd1::queuing_rw_mutex::scoped_lock& s'
+QRW_FUNCS = [  # name, signature regex, C signature, loops (for/while/do), locals declared in front of each backward-goto label
+    ('try_acquire_internal_lock', r'static bool try_acquire_internal_lock\(%s\)' % _NS, 'static bool qrw_try_acquire_internal_lock(struct qrw_node* s)', 0, {}),
+    ('acquire_internal_lock', r'static void acquire_internal_lock\(%s\)' % _NS, 'static void qrw_acquire_internal_lock(struct qrw_node* s)', 1, {}),
+    ('release_internal_lock', r'static void release_internal_lock\(%s\)' % _NS, 'static void qrw_release_internal_lock(struct qrw_node* s)', 0, {}),
+    ('wait_for_release_of_internal_lock', r'static void wait_for_release_of_internal_lock\(%s\)' % _NS, 'static void qrw_wait_for_release_of_internal_lock(struct qrw_node* s)', 0, {}),
+    ('unblock_or_wait_on_internal_lock', r'static void unblock_or_wait_on_internal_lock\(%s, uintptr_t flag \)' % _NS, 'static void qrw_unblock_or_wait_on_internal_lock(struct qrw_node* s, uintptr_t flag)', 0, {}),
+    ('get_flag', r'static uintptr_t get_flag\( d1::queuing_rw_mutex::scoped_lock\* ptr \)', 'static uintptr_t qrw_get_flag(struct qrw_node* ptr)', 0, {}),
+    ('acquire', r'static void acquire\(d1::queuing_rw_mutex& m, %s, bool write\)' % _NS, 'static void qrw_acquire(struct qrw_mutex* m, struct qrw_node* s, bool write)', 0, {}),
+    ('try_acquire', r'static bool try_acquire\(d1::queuing_rw_mutex& m, %s, bool write\)' % _NS, 'static bool qrw_try_acquire(struct qrw_mutex* m, struct qrw_node* s, bool write)', 0, {}),
+    ('release', r'static void release\(%s\)' % _NS, 'static void qrw_release(struct qrw_node* s)', 0, {'retry': ['tmp']}),
+    ('downgrade_to_reader', r'static bool downgrade_to_reader\(%s\)' % _NS, 'static bool qrw_downgrade_to_reader(struct qrw_node* s)', 0, {}),
+    ('upgrade_to_writer', r'static bool upgrade_to_writer\(%s\)' % _NS, 'static bool qrw_upgrade_to_writer(struct qrw_node* s)', 1,
+     {'requested': ['tmp', 'me'], 'waiting': ['tmp', 'me', 'expected']}),
+    ('is_writer', r'static bool is_writer\(const d1::queuing_rw_mutex::scoped_lock& m\)', 'static bool qrw_is_writer(struct qrw_node* m)', 0, {}),
+]
+
+
+def _stash(text):
+    """protect string literals from the argument splitter (a comma inside an assertion message)"""
+    lits = []
+
+    def st(m):
+        lits.append(m.group(0))
+        return '"@LIT%d@"' % (len(lits) - 1)
+    return re.sub(r'"(?:[^"\\\n]|\\.)*"', st, text), lits
+
+
+def _unstash(text, lits):
+    return re.sub(r'"@LIT(\d+)@"', lambda m: lits[int(m.group(1))], text)
+
+
+def _nomo(a):
+    return [x for x in a if not _MO.match(x)]
+
+
+def qrw_convert(rw, text, fname, sig, csig, nloops, cut_locals):
+    """one function of queuing_rw_mutex_impl -> C.  Every atomic primitive becomes A_<OP>(site, field, object, ...); the tricky_atomic_pointer
+    wrappers (bodies pinned by qrw_pins) become the underlying operation plus the pointer/word casts; backward gotos become cut points."""
+    t = rw.sub(text, sig, csig, 1, 1, name='sig')
+    t, lits = _stash(t)
+    t = cpp_resolve(t, {'__TBB_USE_ITT_NOTIFY': 1, 'TBB_USE_ASSERT': 0}, fname)
+    # ---- syntax C does not have (same statements, same order) ----
+    t = rw.sub(t, r'tricky_pointer::load\(([^()]*)\)->(\w+)\.store\(([^;]*)\);', r'{ struct qrw_node* nx_ = tricky_pointer::load(\1); nx_->\2.store(\3); }', 0,
+               name='`load(w)->f.store(v);` -> `{ T* nx_ = load(w); nx_->f.store(v); }` (same order: load, then store)')
+    t = rw.sub(t, r'if\(\s*' + NODE_T + r' \*const (\w+) = ([^;{]*?) \) \{', r'struct qrw_node* const \1 = \2; if( \1 ) {', 0,
+               name='declaration in if-condition -> declaration; if (name)')
+    t = rw.sub(t, r'for\( atomic_backoff (\w+); (.*); \1\.pause\(\) \)', r'for( ; \2; RG_NOP() )', 0, name='backoff-for')
+    t = rw.nop_calls(t, [r'\bITT_NOTIFY', r'\bmachine_pause'], 0)
+    t = rw.call(t, NODE_T + r'::state_t', lambda m, a: '((unsigned char)(%s))' % a[0], 0, name='state_t(x) functional cast')
+    t = rw.sub(t, NODE_T + r'\s*\*\s*(?:const\b)?\s*', 'struct qrw_node* ', 0, name='node pointer type')
+    t = rw.sub(t, r'\b(\w+)\{\};', r'\1 = 0;', 0, name='brace-init{} -> = 0')
+    t = rw.sub(t, r'\bauto expected = RELEASED;', 'unsigned char expected = RELEASED;', 0, name='auto')
+    if fname == 'initialize':
+        t = rw.fields(t, ['my_mutex', 'my_prev', 'my_next', 'my_state', 'my_going', 'my_internal_lock'], 0, to='s->')
+    t = rw.sub(t, r'\bs\.', 's->', 0, name='ref-param s')
+    t = rw.sub(t, r'\bm\.', 'm->', 0, name='ref-param m')
+    t = rw.sub(t, r'&(s|m)\b', r'\1', 0, name='address of ref-param')
+    t = rw.sub(t, r'(?<![\w:>.])(%s)\(\s*\*?' % '|'.join(QRW_HELPERS), r'qrw_\1(', 0, name='helper call')
+    t = rw.sub(t, r'\bs->initialize\(\)', 'qrw_initialize(s)', 0, name='initialize()')
+    P = '((struct qrw_node*)%s)'
+    U = '(uintptr_t)(%s)'
+    tp = [('fetch_add', lambda a: P % ('ATOMIC_FETCH_ADD(%s, %s)' % (a[0], a[1]))),
+          ('exchange', lambda a: P % ('ATOMIC_XCHG(%s, %s)' % (a[0], U % a[1]))),
+          ('compare_exchange_strong', lambda a: P % ('ATOMIC_CASV(%s, %s, %s)' % (a[0], U % a[1], U % a[2]))),
+          ('store', lambda a: 'ATOMIC_STORE(%s, %s)' % (a[0], U % a[1])),
+          ('load', lambda a: P % ('ATOMIC_LOAD(%s)' % a[0])),
+          ('spin_wait_while_eq', lambda a: 'ATOMIC_SPIN_WHILE_EQ(%s, %s)' % (a[0], U % a[1]))]
+    t = rw.sub(t, r'tricky_pointer\((\w+)\)\s*&\s*(~?FLAG)', r'TP_AND(\1, \2)', 0, name='tricky_pointer(p) & mask')
+    t = rw.sub(t, r'tricky_pointer\((\w+)\)\s*\|\s*FLAG', r'TP_OR(\1, FLAG)', 0, name='tricky_pointer(p) | FLAG')
+    for meth, fn in tp:
+        t = rw.call(t, r'tricky_pointer::' + meth, lambda m, a, fn=fn: fn(_nomo(a)), 0, name='tricky_pointer::' + meth)
+    t = rw.call(t, r'(?<![\w:])spin_wait_until_eq', lambda m, a: 'ATOMIC_SPIN_UNTIL_EQ(%s)' % ', '.join(_nomo(a)), 0, name='spin_wait_until_eq')
+    t = rw.call(t, r'(?<![\w:])spin_wait_while_eq', lambda m, a: 'ATOMIC_SPIN_WHILE_EQ(%s)' % ', '.join(_nomo(a)), 0, name='spin_wait_while_eq')
+    t = rw.sub(t, r'\(\s*s->my_state != ', '( ATOMIC_LOAD(s->my_state) != ', 0, name='implicit-load')
+    t = rw.atomics(t, QRW_FIELDS, 0)
+    t = rw.asserts(t, 0)
+    t = rw.call(t, r'\bVERIF_ASSERT', lambda m, a: None if not any('ATOMIC_LOAD(' in x for x in a) else 'VERIF_ASSERT(%s)' % ', '.join(x.replace('ATOMIC_LOAD(', 'PLAIN_READ(') for x in a), 0,
+                name='assert-reads are ghost reads')
+    t = rw.casts(t, 0)
+    t = rw.std(t)
+    # ---- backward gotos: cut points (LABEL_BACK / GOTO_BACK are the hand-written loop-invariant encoding of the harness) ----
+    mk = mask(t)
+    labels = {}
+    for lab in re.finditer(r'(?m)^\s*(\w+):(?!:)', mk):
+        labels[lab.group(1)] = lab.start()
+    back = {}
+    for g in re.finditer(r'\bgoto (\w+);', mk):
+        if g.group(1) in labels and labels[g.group(1)] < g.start():
+            back.setdefault(g.group(1), []).append(g.start())
+    if sorted(back) != sorted(cut_locals):
+        raise ExtractionBreak('%s: backward gotos %s, spec has cut invariants for %s' % (fname, sorted(back), sorted(cut_locals)))
+    for lab, want in cut_locals.items():
+        # every local declared in front of the label must be in the cut's havoc list (a new local would escape the havoc: unsound)
+        decls = set()
+        for d in re.finditer(r'(?:struct qrw_node\*|unsigned char|unsigned short|bool|uintptr_t)\s+(?:const\s+)?(\w+)\s*(?:=|;)', mk[:labels[lab]]):
+            depth, i = 0, d.start() - 1          # the block that holds the declaration: is the label inside it?
+            while i >= 0 and not (mk[i] == '{' and depth == 0):
+                depth += (mk[i] == '}') - (mk[i] == '{')
+                i -= 1
+            if i >= 0 and match_close(mk, i) > labels[lab]:
+                decls.add(d.group(1))
+        if decls != set(want):
+            raise ExtractionBreak('%s: locals declared before label %s are %s, the cut point havocs %s' % (fname, lab, sorted(decls), sorted(want)))
+    pos = sorted((p, lab) for lab, ps in back.items() for p in ps)
+    for p, lab in reversed(pos):
+        t = t[:p] + re.sub(r'^goto %s;' % lab, 'GOTO_BACK(%s);' % lab, t[p:], count=1)
+    for lab in back:
+        t = rw.sub(t, r'(?m)^(\s*)%s:' % lab, r'\1%s: LABEL_BACK(%s);' % (lab, lab), 1, 1, name='backward-goto label -> cut point')
+    rw.fired['backward gotos -> cut points'] = rw.fired.get('backward gotos -> cut points', 0) + len(pos)
+    t = rw.number_sites(t, fname, ops=QRW_OPS, by_kind=True)
+    t = tag_loops(t, fname, rw, expect=nloops)
+    t, n = re.subn(r'\bATOMIC_(\w+?)_AT\((\w+), ((?:\w+->)*\w+)->(%s)\b' % '|'.join(QRW_FIELDS), r'A_\1(\2, \4, \3', t)
+    rw.fired['ATOMIC_<OP>_AT(site, obj->field, ..) -> A_<OP>(site, field, obj, ..)'] = rw.fired.get('ATOMIC_<OP>_AT(site, obj->field, ..) -> A_<OP>(site, field, obj, ..)', 0) + n
+    return _unstash(t, lits)
+
+
+def qrw_pins():
+    """text that the C view takes as given: the tricky_atomic_pointer wrappers are the plain atomic operation plus casts; constants; spin_wait helpers"""
+    src = load(QRWC)
+    pins = [
+        r'static T\* fetch_add\( std::atomic<word>& location, word addend, std::memory_order memory_order \) \{\s*return reinterpret_cast<T\*>\(location\.fetch_add\(addend, memory_order\)\);\s*\}',
+        r'static T\* exchange\( std::atomic<word>& location, T\* value, std::memory_order memory_order \) \{\s*return reinterpret_cast<T\*>\(location\.exchange\(reinterpret_cast<word>\(value\), memory_order\)\);\s*\}',
+        r'static T\* compare_exchange_strong\( std::atomic<word>& obj, const T\* expected, const T\* desired, std::memory_order memory_order \) \{\s*word expd = reinterpret_cast<word>\(expected\);\s*obj\.compare_exchange_strong\(expd, reinterpret_cast<word>\(desired\), memory_order\);\s*return reinterpret_cast<T\*>\(expd\);\s*\}',
+        r'static void store\( std::atomic<word>& location, const T\* value, std::memory_order memory_order \) \{\s*location\.store\(reinterpret_cast<word>\(value\), memory_order\);\s*\}',
+        r'static T\* load\( std::atomic<word>& location, std::memory_order memory_order \) \{\s*return reinterpret_cast<T\*>\(location\.load\(memory_order\)\);\s*\}',
+        r'static void spin_wait_while_eq\(const std::atomic<word>& location, const T\* value\) \{\s*tbb::detail::d0::spin_wait_while_eq\(location, reinterpret_cast<word>\(value\) \);\s*\}',
+        r'T\* operator&\( const word operand2 \) const \{\s*return reinterpret_cast<T\*>\( reinterpret_cast<word>\(ref\) & operand2 \);\s*\}',
+        r'T\* operator\|\( const word operand2 \) const \{\s*return reinterpret_cast<T\*>\( reinterpret_cast<word>\(ref\) \| operand2 \);\s*\}',
+        r'using tricky_pointer = tricky_atomic_pointer<queuing_rw_mutex::scoped_lock>;',
+        r'static const unsigned char RELEASED = 0;', r'static const unsigned char ACQUIRED = 1;', r'static const tricky_pointer::word FLAG = 0x1;',
+    ]
+    for p in pins:
+        if not re.search(p, src):
+            raise ExtractionBreak('queuing_rw_mutex.cpp: pinned text changed: %s' % p[:70])
+    ut = load('include/oneapi/tbb/detail/_utils.h')
+    for p in (r'T spin_wait_while_eq\(const std::atomic<T>& location, const U value, std::memory_order order = std::memory_order_acquire\) \{\s*return spin_wait_while\(location, \[&value\]\(T t\) \{ return t == value; \}, order\);',
+              r'T spin_wait_until_eq\(const std::atomic<T>& location, const U value, std::memory_order order = std::memory_order_acquire\) \{\s*return spin_wait_while\(location, \[&value\]\(T t\) \{ return t != value; \}, order\);',
+              r'while \(comp\(snapshot\)\) \{\s*backoff\.pause\(\);\s*snapshot = location\.load\(order\);\s*\}'):
+        if not re.search(p, ut):
+            raise ExtractionBreak('_utils.h: spin_wait helper changed: %s' % p[:60])
+    return len(pins) + 3
+
+
+def qrw_closed_world():
+    """every textual use of the node words / q_tail lies inside a function under proof (or the declarations / the destructor's assertion)"""
+    spans = []
+    src = load(QRWC)
+    m = mask(src)
+    for name, sig, _, _, _ in QRW_FUNCS:
+        s = slice_block(QRWC, sig, within=QRW_IMPL)
+        spans.append((s.start, s.end))
+    for f in QRW_FIELDS:
+        for u in re.finditer(r'\b%s\b' % f, m):
+            if not any(a <= u.start() < b for a, b in spans):
+                raise ExtractionBreak('queuing_rw_mutex.cpp: closed-world scan: %s is used outside the functions under proof (line %d)' % (f, src.count('\n', 0, u.start()) + 1))
+    hdr = load(QRWH)
+    hm = mask(hdr)
+    ini = slice_block(QRWH, r'void initialize\(\)', within=r'class scoped_lock \{')
+    ok = (r'std::atomic<uintptr_t> my_prev;', r'std::atomic<uintptr_t> my_next;', r'std::atomic<state_t> my_state;', r'std::atomic<unsigned char> my_going;',
+          r'std::atomic<unsigned char> my_internal_lock;', r'std::atomic<scoped_lock\*> q_tail\{nullptr\};', r'__TBB_ASSERT\(q_tail\.load\(std::memory_order_relaxed\) == nullptr')
+    for f in QRW_FIELDS:
+        for u in re.finditer(r'\b%s\b' % f, hm):
+            if ini.start <= u.start() < ini.end:
+                continue
+            line = hdr[hdr.rfind('\n', 0, u.start()) + 1:hdr.find('\n', u.start())]
+            if not any(re.search(p, line) for p in ok):
+                raise ExtractionBreak('queuing_rw_mutex.h: closed-world scan: %s is used outside initialize(): %s' % (f, line.strip()))
+    # nobody else reaches into the node (friend access is limited to queuing_rw_mutex_impl)
+    for rel in ('include/oneapi/tbb/detail/_rtm_rw_mutex.h', 'src/tbb/rtm_rw_mutex.cpp'):
+        if re.search(r'\bmy_internal_lock\b|\bmy_going\b', load(rel)):
+            raise ExtractionBreak('%s touches queuing_rw_mutex node words' % rel)
+
+
+MX = 'include/oneapi/tbb/mutex.h'
+WA = 'include/oneapi/tbb/detail/_waitable_atomic.h'
+
+
+def extract_mx(ctx):
+    """d1::mutex (lock / try_lock / unlock) on top of waitable_atomic<bool> (load / exchange / wait / notify_one_relaxed)"""
+    rw = Rewriter('mutex')
+    sliced, out = [], []
+    wcls = r'class waitable_atomic \{'
+    if not re.search(r'waitable_atomic<bool> my_flag\{0\};', load(MX)) or not re.search(r'std::atomic<T> my_atomic\{\};', load(WA)):
+        raise ExtractionBreak('mutex.h / _waitable_atomic.h: member declarations changed')
+    for name, sig, csig in (('wa_load', r'T load\(std::memory_order order\) const noexcept', 'static bool waitable_atomic_load(struct waitable_atomic_bool* self)'),
+                            ('wa_exchange', r'T exchange\(T desired\) noexcept', 'static bool waitable_atomic_exchange(struct waitable_atomic_bool* self, bool desired)'),
+                            ('wa_wait', r'void wait\(T old, std::uintptr_t context, std::memory_order order\)', 'static void waitable_atomic_wait(struct waitable_atomic_bool* self, bool old, uintptr_t context)'),
+                            ('wa_notify', r'void notify_one_relaxed\(\)', 'static void waitable_atomic_notify_one_relaxed(struct waitable_atomic_bool* self)')):
+        sl = slice_block(WA, sig, within=wcls)
+        sliced.append('%s:%d waitable_atomic::%s' % (WA, sl.line, name))
+        t = rw.sub(sl.text, sig, csig, 1, 1, name='sig + bind-template(T:=bool)')
+        # the wake-up predicate is a lambda: it becomes a function-like macro with the same body (evaluated where the lambda is called)
+        t = rw.sub(t, r'auto (\w+) = \[&\] \{ return ([^;]*); \};', r'\n#define \1() (\2)\n', 0, name='lambda predicate -> function-like macro (same expression)')
+        t = rw.sub(t, r'timed_spin_wait_until\((\w+)\)', r'TIMED_SPIN_WAIT_UNTIL(\1())', 0, name='callee stub (timed_spin_wait_until: evaluates the predicate, returns its last value)')
+        t = rw.sub(t, r'd1::delegated_function<decltype\(\w+\)> pred\(\w+\);', 'RG_NOP();', 0, name='delegate wrapper -> RG_NOP')
+        t = rw.sub(t, r'r1::wait_on_address\(this, pred, context\);', 'STUB_wait_on_address(self, context);', 0, name='callee stub (r1::wait_on_address)')
+        t = rw.sub(t, r'r1::notify_by_address_one\(this\);', 'STUB_notify_by_address_one(self);', 0, name='callee stub (r1::notify_by_address_one)')
+        t = rw.sub(t, r'\.load\(order\)', '.load(std::memory_order_seq_cst)', 0, name='memory-order parameter (orders are dropped: SC assumed)')
+        t = rw.sub(t, r'\bmy_atomic\b', 'self->my_atomic', 0, name='field')
+        t = rw.atomics(t, ['my_atomic'], 0)
+        t = rw.std(t)
+        t = rw.number_sites(t, name, by_kind=True)
+        t = tag_loops(t, name, rw)
+        out.append(t)
+    mcls = r'class mutex \{'
+    for name, sig, csig in (('lock', r'void lock\(\)', 'static void mutex_lock(struct mutex* self)'), ('try_lock', r'bool try_lock\(\)', 'static bool mutex_try_lock(struct mutex* self)'),
+                            ('unlock', r'void unlock\(\)', 'static void mutex_unlock(struct mutex* self)')):
+        sl = slice_block(MX, sig, within=mcls)
+        sliced.append('%s:%d mutex::%s' % (MX, sl.line, name))
+        t = rw.sub(sl.text, sig, csig, 1, 1, name='sig')
+        t = rw.sub(t, r'call_itt_notify\([^;]*\);', 'RG_NOP();', 0, name='itt->RG_NOP')
+        t = rw.sub(t, r'(?<![\w.>])try_lock\(\)', 'mutex_try_lock(self)', 0, name='self-call')
+        t = rw.call(t, r'\bmy_flag\.(load|exchange|wait|notify_one_relaxed)', lambda m, a: 'waitable_atomic_%s(%s)' % (m.group(1), ', '.join(['&self->my_flag'] + [x for x in a if x and not _MO.match(x) and not re.match(r'/\*.*\*/\s*$', x)])), 0,
+                    name='waitable_atomic member call -> function(&self->my_flag, ..)')
+        t = rw.sub(t, r'/\* context = \*/ ', '', 0, name='comment')
+        t = rw.std(t)
+        t = tag_loops(t, name, rw)
+        out.append(t)
+    closed_world(MX, mcls, 'my_flag', [('lock', r'void lock\(\)'), ('try_lock', r'bool try_lock\(\)'), ('unlock', r'void unlock\(\)')], extra_ok=(r'waitable_atomic<bool> my_flag\{0\};',))
+    closed_world(WA, wcls, 'my_atomic', [('load', r'T load\(std::memory_order order\) const noexcept'), ('exchange', r'T exchange\(T desired\) noexcept'), ('wait', r'void wait\(T old, std::uintptr_t context, std::memory_order order\)')],
+                 extra_ok=(r'explicit waitable_atomic\(T value\) : my_atomic\(value\)', r'std::atomic<T> my_atomic\{\};'))
+    common.write(ctx, 'mx.inc', '\n'.join(out) + '\n')
+    return sliced, rw.fired
+
+
+RTM = 'src/tbb/rtm_mutex.cpp'
+RTMRW = 'src/tbb/rtm_rw_mutex.cpp'
+RTMH = 'include/oneapi/tbb/detail/_rtm_mutex.h'
+RTMRWH = 'include/oneapi/tbb/detail/_rtm_rw_mutex.h'
+MISC = 'src/tbb/misc.h'
+REAL_OPS = 'try_lock_shared|unlock_shared|lock_shared|try_lock|unlock|lock|upgrade|downgrade'
+
+
+def rtm_convert(rw, text, fname, sig, csig, prefix, ns, calls, nloops):
+    """one function of rtm_mutex_impl / rtm_rw_mutex_impl -> C.  Hardware transactions, the speculation switch and the operations of the underlying real lock are callee stubs."""
+    t = rw.sub(text, sig, csig, 1, 1, name='sig')
+    t, lits = _stash(t)
+    t = rw.sub(t, r'd1::%s::rtm_(?:state|type)::' % ns, '', 0, name='enum scope')
+    t = rw.sub(t, r'd1::%s& m = \*s\.m_mutex;' % ns, 'struct %s_mutex* m = s->m_mutex;' % prefix, 0, name='ref-local -> pointer')
+    t = rw.sub(t, r'\btransaction_result_type abort_code\b', 'unsigned int abort_code', 0, name='transaction_result_type := unsigned int (pinned)')
+    t = rw.call(t, r'\btransaction_result_type', lambda m, a: '((unsigned int)(%s))' % a[0], 0, name='fcast')
+    t = rw.call(t, r'd1::%s::state_type' % ns, lambda m, a: '((state_type)(%s))' % a[0], 0, name='fcast')
+    t = rw.sub(t, r'\bs\.', 's->', 0, name='ref-param s')
+    t = rw.sub(t, r'\bm\.', 'm->', 0, name='ref-param m')
+    t = rw.sub(t, r'&m\b', 'm', 0, name='address of ref-param')
+    t = rw.sub(t, r'governor::speculation_enabled\(\)', 'STUB_speculation_enabled()', 0, name='callee stub')
+    t = rw.sub(t, r'\b(begin_transaction|end_transaction|abort_transaction|is_in_transaction)\(\)', r'STUB_\1()', 0, name='callee stub (hardware transaction)')
+    t = rw.call(t, r'(?<![\w:])spin_wait_while_eq', lambda m, a: 'SPIN_WAIT_WHILE_EQ(%s)' % ', '.join(a), 0, name='spin_wait_while_eq')
+    t = rw.call(t, r'(?<![\w:])spin_wait_until_eq', lambda m, a: 'SPIN_WAIT_UNTIL_EQ(%s)' % ', '.join(a), 0, name='spin_wait_until_eq')
+    t = rw.sub(t, r'\b((?:\w+->)*\w+)->(%s)\(\)' % REAL_OPS, r'STUB_real_\2(\1)', 0, name='callee stub (operation of the underlying real lock)')
+    t = rw.sub(t, r'(?<![\w>.])(%s)\(' % '|'.join(calls), r'%s_\1(' % prefix, 0, name='impl call')
+    t = rw.atomics(t, ['m_flag', 'm_state', 'write_flag'], 0)
+    t = rw.asserts(t, 0)
+    t = rw.call(t, r'\bVERIF_ASSERT', lambda m, a: None if not any('ATOMIC_LOAD(' in x for x in a) else 'VERIF_ASSERT(%s)' % ', '.join(x.replace('ATOMIC_LOAD(', 'PLAIN_READ(') for x in a), 0,
+                name='assert-reads are ghost reads')
+    t = rw.std(t)
+    t = rw.number_sites(t, fname, by_kind=True)
+    t = tag_loops(t, fname, rw, expect=nloops)
+    return _unstash(t, lits)
+
+
+def extract_rtm(ctx):
+    rw = Rewriter('rtm')
+    sliced = []
+    misc = load(MISC)
+    for pat in (r'static inline unsigned int begin_transaction\(\)', r'using transaction_result_type = decltype\(begin_transaction\(\)\);'):
+        if not re.search(pat, misc) and not re.search(pat, load(RTM)):
+            raise ExtractionBreak('rtm: pinned declaration changed: %s' % pat)
+    e = slice_block(MISC, r'enum (?=\{\s*speculation_not_supported)')
+    sliced.append('%s:%d speculation codes' % (MISC, e.line))
+    decl = [e.text + ';']
+    for rel, nm in ((RTMH, 'rtm_state'), (RTMRWH, 'rtm_type')):
+        en = slice_block(rel, r'enum class %s \{' % nm)
+        sliced.append('%s:%d %s' % (rel, en.line, nm))
+        decl.append(rw.sub(en.text, r'enum class %s \{' % nm, 'enum %s {' % nm, 1, 1, name='enum class -> enum') + ';')
+    for rel, names in ((RTM, ['retry_threshold']), (RTMRW, ['retry_threshold_read', 'retry_threshold_write'])):
+        for nm in names:
+            m_ = re.search(r'static constexpr int %s = (\d+);' % nm, load(rel))
+            if not m_:
+                raise ExtractionBreak('%s: %s changed' % (rel, nm))
+            decl.append('enum { %s = %s };' % (nm, m_.group(1)))
+    if not re.search(r'rtm_mutex\* m_mutex;\s*rtm_state m_transaction_state;', load(RTMH)) or not re.search(r'rtm_rw_mutex\* m_mutex;\s*rtm_type m_transaction_state;', load(RTMRWH)) \
+            or not re.search(r'alignas\(speculation_granularity\) std::atomic<bool> write_flag;', load(RTMRWH)) or not re.search(r'class alignas\(max_nfs_size\) rtm_rw_mutex : private spin_rw_mutex \{', load(RTMRWH)) \
+            or not re.search(r'class alignas\(max_nfs_size\) rtm_mutex : private spin_mutex \{', load(RTMH)):
+        raise ExtractionBreak('rtm headers: member declarations changed')
+    common.write(ctx, 'rtm_decl.inc', '\n'.join(decl) + '\n')
+    out = []
+    SL = r'd1::rtm_mutex::scoped_lock& s'
+    for name, sig, csig, nl in (('release', r'static void release\(%s\)' % SL, 'static void rtm_release(struct rtm_lock* s)', 0),
+                                ('acquire', r'static void acquire\(d1::rtm_mutex& m, %s, bool only_speculate\)' % SL, 'static void rtm_acquire(struct rtm_mutex* m, struct rtm_lock* s, bool only_speculate)', 1),
+                                ('try_acquire', r'static bool try_acquire\(d1::rtm_mutex& m, %s\)' % SL, 'static bool rtm_try_acquire(struct rtm_mutex* m, struct rtm_lock* s)', 0)):
+        sl = slice_block(RTM, sig, within=r'struct rtm_mutex_impl \{')
+        sliced.append('%s:%d rtm_mutex_impl::%s' % (RTM, sl.line, name))
+        out.append(rtm_convert(rw, sl.text, name, sig, csig, 'rtm', 'rtm_mutex', ['acquire', 'release'], nl))
+    common.write(ctx, 'rtm.inc', '\n'.join(out) + '\n')
+    out = []
+    SL = r'd1::rtm_rw_mutex::scoped_lock& s'
+    MS = r'd1::rtm_rw_mutex& m, %s' % SL
+    for name, sig, csig, nl in (('release', r'static void release\(%s\)' % SL, 'static void rtmrw_release(struct rtmrw_lock* s)', 0),
+                                ('acquire_writer', r'static void acquire_writer\(%s, bool only_speculate\)' % MS, 'static void rtmrw_acquire_writer(struct rtmrw_mutex* m, struct rtmrw_lock* s, bool only_speculate)', 1),
+                                ('acquire_reader', r'static void acquire_reader\(%s, bool only_speculate\)' % MS, 'static void rtmrw_acquire_reader(struct rtmrw_mutex* m, struct rtmrw_lock* s, bool only_speculate)', 1),
+                                ('upgrade', r'static bool upgrade\(%s\)' % SL, 'static bool rtmrw_upgrade(struct rtmrw_lock* s)', 0),
+                                ('downgrade', r'static bool downgrade\(%s\)' % SL, 'static bool rtmrw_downgrade(struct rtmrw_lock* s)', 0),
+                                ('try_acquire_writer', r'static bool try_acquire_writer\(%s\)' % MS, 'static bool rtmrw_try_acquire_writer(struct rtmrw_mutex* m, struct rtmrw_lock* s)', 0),
+                                ('try_acquire_reader', r'static bool try_acquire_reader\(%s\)' % MS, 'static bool rtmrw_try_acquire_reader(struct rtmrw_mutex* m, struct rtmrw_lock* s)', 0)):
+        sl = slice_block(RTMRW, sig, within=r'struct rtm_rw_mutex_impl \{')
+        sliced.append('%s:%d rtm_rw_mutex_impl::%s' % (RTMRW, sl.line, name))
+        out.append(rtm_convert(rw, sl.text, 'rw_' + name, sig, csig, 'rtmrw', 'rtm_rw_mutex', ['acquire_writer', 'acquire_reader', 'release'], nl))
+    common.write(ctx, 'rtmrw.inc', '\n'.join(out) + '\n')
+    # the exported entry points and the inline scoped_lock methods forward unchanged
+    for rel, impl, fns in ((RTM, 'rtm_mutex_impl', ('acquire', 'try_acquire', 'release')),
+                           (RTMRW, 'rtm_rw_mutex_impl', ('acquire_writer', 'acquire_reader', 'upgrade', 'downgrade', 'try_acquire_writer', 'try_acquire_reader', 'release'))):
+        for fn in fns:
+            if not re.search(r'__TBB_EXPORTED_FUNC %s\([^)]*\) \{\s*(?:return )?%s::%s\([^;]*\);\s*\}' % (fn, impl, fn), load(rel)):
+                raise ExtractionBreak('%s: exported %s no longer forwards to %s::%s' % (rel, fn, impl, fn))
+    return sliced, rw.fired
+
+
+SCL = 'include/oneapi/tbb/detail/_scoped_lock.h'
+
+
+def extract_scoped(ctx):
+    """unique_scoped_lock<Mutex> and rw_scoped_lock<Mutex> (the scoped_lock of spin_mutex / mutex / spin_rw_mutex / rw_mutex): the mutex operations are callee stubs"""
+    rw = Rewriter('scoped_lock')
+    sliced, out = [], []
+    if not re.search(r'Mutex\* m_mutex\{\};', load(SCL)) or not re.search(r'Mutex\* m_mutex \{nullptr\};', load(SCL)) or not re.search(r'bool m_is_writer \{false\};', load(SCL)):
+        raise ExtractionBreak('_scoped_lock.h: member declarations / default initialisers changed')
+    for nm in ('spin_mutex', 'mutex'):
+        rel = {'spin_mutex': SM, 'mutex': MX}[nm]
+        if not re.search(r'using scoped_lock = unique_scoped_lock<%s>;' % nm, load(rel)):
+            raise ExtractionBreak('%s: scoped_lock is no longer unique_scoped_lock<%s>' % (rel, nm))
+    for nm in ('spin_rw_mutex', 'rw_mutex'):
+        rel = {'spin_rw_mutex': SRW, 'rw_mutex': RWM}[nm]
+        if not re.search(r'using scoped_lock = rw_scoped_lock<%s>;' % nm, load(rel)):
+            raise ExtractionBreak('%s: scoped_lock is no longer rw_scoped_lock<%s>' % (rel, nm))
+
+    def conv(cls, cname, name, sig, csig):
+        sl = slice_block(SCL, sig, within=r'class %s \{' % cls)
+        sliced.append('%s:%d %s::%s' % (SCL, sl.line, cls, name))
+        t = rw.sub(sl.text, sig, csig, 1, 1, name='sig')
+        t, lits = _stash(t)
+        t = rw.sub(t, r'\bMutex\* m = m_mutex;', 'struct stub_mutex* m = self->m_mutex;', 0, name='local')
+        t = rw.sub(t, r'(?<![\w.>])(m_mutex|m_is_writer)\b', r'self->\1', 0, name='field')
+        t = rw.sub(t, r'= &m;', '= m;', 0, name='address of ref-param')
+        t = rw.sub(t, r'\b(?:m\.|m->|self->m_mutex->)(%s)\(\)' % REAL_OPS, lambda mm: 'STUB_mx_%s(%s)' % (mm.group(1), 'self->m_mutex' if mm.group(0).startswith('self') else 'm'), 0, name='callee stub (mutex operation)')
+        t = rw.sub(t, r'(?<![\w.>])(acquire|release)\(', r'%s_\1(self, ' % cname, 0, name='self-call')
+        t = rw.sub(t, r'\(self, \)', '(self)', 0, name='self-call()')
+        t = rw.asserts(t, 0)
+        t = rw.std(t)
+        return _unstash(t, lits)
+    U = 'struct unique_lock* self'
+    for name, sig, csig in (('acquire', r'void acquire\(Mutex& m\)', 'static void unique_acquire(%s, struct stub_mutex* m)' % U), ('try_acquire', r'bool try_acquire\(Mutex& m\)', 'static bool unique_try_acquire(%s, struct stub_mutex* m)' % U),
+                            ('release', r'void release\(\)', 'static void unique_release(%s)' % U), ('dtor', r'~unique_scoped_lock\(\)', 'static void unique_dtor(%s)' % U)):
+        out.append(conv('unique_scoped_lock', 'unique', name, sig, csig))
+    R = 'struct rw_lock* self'
+    for name, sig, csig in (('acquire', r'void acquire\(Mutex& m, bool write = true\)', 'static void rwl_acquire(%s, struct stub_mutex* m, bool write)' % R),
+                            ('try_acquire', r'bool try_acquire\(Mutex& m, bool write = true\)', 'static bool rwl_try_acquire(%s, struct stub_mutex* m, bool write)' % R),
+                            ('release', r'void release\(\)', 'static void rwl_release(%s)' % R), ('upgrade_to_writer', r'bool upgrade_to_writer\(\)', 'static bool rwl_upgrade_to_writer(%s)' % R),
+                            ('downgrade_to_reader', r'bool downgrade_to_reader\(\)', 'static bool rwl_downgrade_to_reader(%s)' % R), ('is_writer', r'bool is_writer\(\) const', 'static bool rwl_is_writer(%s)' % R),
+                            ('dtor', r'~rw_scoped_lock\(\)', 'static void rwl_dtor(%s)' % R)):
+        out.append(conv('rw_scoped_lock', 'rwl', name, sig, csig))
+    common.write(ctx, 'scoped.inc', '\n'.join(out) + '\n')
+    return sliced, rw.fired
+
+
+def extract_qrw(ctx):
+    rw = Rewriter('queuing_rw_mutex')
+    sliced = []
+    rw.fired['pinned wrapper/constant texts'] = qrw_pins()
+    qrw_closed_world()
+    # node layout: harvested from the real class (names, types, declared order)
+    q = CClass(QRWH, r'class scoped_lock \{', 'qrw_node', tbind={'queuing_rw_mutex': 'struct qrw_mutex', 'state_t': 'unsigned char'}, rw=rw)
+    q.harvest_members(['my_mutex', 'my_prev', 'my_next', 'my_state', 'my_going', 'my_internal_lock'])
+    if not re.search(r'using state_t = unsigned char ;', load(QRWH)):
+        raise ExtractionBreak('queuing_rw_mutex.h: state_t changed')
+    decl = ['struct qrw_node;', 'struct qrw_mutex { struct qrw_node* q_tail; };', q.struct_decl()]
+    e = slice_block(QRWC, r'enum state_t_flags : unsigned char \{')
+    sliced.append('%s:%d state_t_flags' % (QRWC, e.line))
+    decl.append(rw.sub(e.text, r'enum state_t_flags : unsigned char \{', 'enum state_t_flags {', 1, 1, name='enum base type') + ';')
+    decl.append('enum { RELEASED = 0, ACQUIRED = 1 };\n#define FLAG ((uintptr_t)0x1)')
+    out = []
+    s = slice_block(QRWH, r'void initialize\(\)', within=r'class scoped_lock \{')
+    sliced.append('%s:%d queuing_rw_mutex::scoped_lock::initialize' % (QRWH, s.line))
+    out.append(qrw_convert(rw, s.text, 'initialize', r'void initialize\(\)', 'static void qrw_initialize(struct qrw_node* s)', 0, {}))
+    for name, sig, csig, nl, cuts in QRW_FUNCS:
+        s = slice_block(QRWC, sig, within=QRW_IMPL)
+        sliced.append('%s:%d queuing_rw_mutex_impl::%s' % (QRWC, s.line, name))
+        out.append(qrw_convert(rw, s.text, name, sig, csig, nl, cuts))
+    body = '\n'.join(out) + '\n'
+    sites = []
+    for m_ in re.finditer(r'\bA_\w+\((\w+),', body):
+        if m_.group(1) not in sites:
+            sites.append(m_.group(1))
+    decl.append('enum qrw_site { S_none, ' + ', '.join('S_' + x for x in sites) + ' };')
+    # the exported entry points forward to the impl functions unchanged
+    for fn in ('acquire', 'try_acquire', 'release', 'upgrade_to_writer', 'downgrade_to_reader', 'is_writer'):
+        if not re.search(r'__TBB_EXPORTED_FUNC %s\([^)]*\) \{\s*(?:return )?queuing_rw_mutex_impl::%s\((?:m, )?s(?:, write)?\);\s*\}' % (fn, fn), load(QRWC)):
+            raise ExtractionBreak('queuing_rw_mutex.cpp: exported %s no longer forwards to queuing_rw_mutex_impl::%s' % (fn, fn))
+        if fn != 'is_writer' and not re.search(r'inline \w+ queuing_rw_mutex::scoped_lock::%s\([^)]*\) \{\s*(?:return )?r1::%s\((?:m, )?\*this(?:, write)?\);\s*\}' % (fn, fn), load(QRWH)):
+            raise ExtractionBreak('queuing_rw_mutex.h: scoped_lock::%s no longer forwards to r1::%s' % (fn, fn))
+    common.write(ctx, 'qrw_decl.inc', '\n'.join(decl) + '\n')
+    common.write(ctx, 'qrw.inc', body)
+    return sliced, rw.fired
+
+
 def build(ctx):
     sliced, fired = extract(ctx)
     C = os.path.join(HERE, 'c08.c')
@@ -189,20 +611,87 @@ def build(ctx):
         jobs.append(Job('sm.' + name, C, 'h_sm_' + name, route='RG', defines=['SM'], loops=nl > 0, nloops=nl if nl else None, target='spin_mutex::' + name, source=SM))
     for name in ('acquire', 'try_acquire', 'release'):
         jobs.append(Job('qm.' + name, C, 'h_qm_' + name, route='RG', defines=['QM'], target='queuing_mutex::scoped_lock::' + name, source=QM))
+    sl2, f2 = extract_qrw(ctx)
+    sliced += sl2
+    fired['queuing_rw_mutex'] = f2
+    CQ = os.path.join(HERE, 'c08_qrw.c')
+    QSRC = QRWC
+    jobs.append(Job('qrw.try_acquire', CQ, 'h_qrw_try_acquire', route='RG', defines=['QRW_TRY_ACQUIRE'], target='queuing_rw_mutex_impl::try_acquire', source=QSRC, unwind=8, inputs=['IN_write']))
+    jobs.append(Job('qrw.acquire.write', CQ, 'h_qrw_acquire', route='RG', defines=['QRW_ACQUIRE=1'], target='queuing_rw_mutex_impl::acquire (write)', source=QSRC, unwind=8))
+    jobs.append(Job('qrw.acquire.read', CQ, 'h_qrw_acquire', route='RG', defines=['QRW_ACQUIRE=0'], target='queuing_rw_mutex_impl::acquire (read)', source=QSRC, unwind=8))
+    jobs.append(Job('qrw.release.writer', CQ, 'h_qrw_release_w', route='RG', defines=['QRW_RELEASE_W=1'], target='queuing_rw_mutex_impl::release (writer; successor waiting or UPGRADE_WAITING)', source=QSRC, unwind=8))
+    jobs.append(Job('qrw.release.writer.loser', CQ, 'h_qrw_release_w', route='RG', defines=['QRW_RELEASE_W=2'], target='queuing_rw_mutex_impl::release (writer; successor UPGRADE_LOSER)', source=QSRC, unwind=8))
+    jobs.append(Job('qrw.release.reader', CQ, 'h_qrw_release_r', route='RG', defines=['QRW_RELEASE_R'], target='queuing_rw_mutex_impl::release (reader)', source=QSRC, unwind=8))
+    jobs.append(Job('qrw.downgrade', CQ, 'h_qrw_downgrade', route='RG', defines=['QRW_DOWNGRADE=1'], target='queuing_rw_mutex_impl::downgrade_to_reader (writer)', source=QSRC, unwind=8))
+    jobs.append(Job('qrw.downgrade.reader', CQ, 'h_qrw_downgrade', route='RG', defines=['QRW_DOWNGRADE=0'], target='queuing_rw_mutex_impl::downgrade_to_reader (already a reader)', source=QSRC, unwind=8))
+    jobs.append(Job('qrw.upgrade', CQ, 'h_qrw_upgrade', route='RG', defines=['QRW_UPGRADE=1'], target='queuing_rw_mutex_impl::upgrade_to_writer (reader)', source=QSRC, unwind=8))
+    jobs.append(Job('qrw.upgrade.loser_successor', CQ, 'h_qrw_upgrade', route='RG', defines=['QRW_UPGRADE=2'], target='queuing_rw_mutex_impl::upgrade_to_writer (reader; successor UPGRADE_LOSER)', source=QSRC, unwind=8))
+    jobs.append(Job('qrw.upgrade.writer', CQ, 'h_qrw_upgrade', route='RG', defines=['QRW_UPGRADE=0'], target='queuing_rw_mutex_impl::upgrade_to_writer (already a writer)', source=QSRC, unwind=8))
+    sl3, f3 = extract_mx(ctx)
+    sliced += sl3
+    fired['mutex'] = f3
+    for name, nl in (('lock', 2), ('try_lock', 0), ('unlock', 0), ('wait', 1)):
+        jobs.append(Job('mx.' + name, C, 'h_mx_' + name, route='RG', defines=['MX'], loops=nl > 0, nloops=nl if nl else None, target='mutex::' + name if name != 'wait' else 'waitable_atomic<bool>::wait', source=MX if name != 'wait' else WA))
+    sl4, f4 = extract_rtm(ctx)
+    sliced += sl4
+    fired['rtm'] = f4
+    CR = os.path.join(HERE, 'c08_rtm.c')
+    for name, route, uw in (('acquire', 'LW', 12), ('try_acquire', 'LW', 12), ('release', 'LF', 2)):
+        jobs.append(Job('rtm.' + name, CR, 'h_rtm_' + name, route=route, defines=['RTM'], target='rtm_mutex_impl::' + name, source=RTM, unwind=uw, inputs=['IN_only']))
+    for name, route, uw in (('acquire_writer', 'LW', 12), ('acquire_reader', 'LW', 12), ('try_acquire_writer', 'LW', 12), ('try_acquire_reader', 'LW', 12), ('release', 'LF', 2), ('upgrade', 'LW', 12), ('downgrade', 'LF', 2)):
+        jobs.append(Job('rtmrw.' + name, CR, 'h_rtmrw_' + name, route=route, defines=['RTMRW'], target='rtm_rw_mutex_impl::' + name, source=RTMRW, unwind=uw, inputs=['IN_only', 'IN_state']))
+    sl5, f5 = extract_scoped(ctx)
+    sliced += sl5
+    fired['scoped_lock'] = f5
+    for name in ('unique', 'rw_acquire', 'rw_held'):
+        jobs.append(Job('scoped.' + name, C, 'h_scoped_' + name, route='LF', defines=['SCOPED'], target=('unique_scoped_lock' if name == 'unique' else 'rw_scoped_lock') + ' (' + name + ')', source=SCL, unwind=2, inputs=['IN_write', 'IN_mode']))
     return {
         'jobs': jobs, 'sliced': sliced, 'fired': fired,
-        'trusted': ['sequentially consistent atomics (memory orders dropped)', 'closed world: m_state / m_flag are only touched by the functions under proof (scan-enforced)',
-                    'spin_wait_while_eq: returns only when the location differs (assumed contract)', 'cxx2c rewriter'],
-        'drops': ['call_itt_notify -> RG_NOP()', 'atomic_backoff -> RG_NOP()', 'std::atomic<T> -> T behind numbered ATOMIC_*_AT(site, ...) primitives', '__TBB_ASSERT -> proof obligation'],
-        'not_decided': ['queuing_mutex / queuing_rw_mutex queue order and hand-off across more than one node (multi-node MCS protocol) beyond the node-publication and token obligations',
-                        'mutex.h (waitable flag; same shape as spin_mutex)', 'rw_mutex: blocking/wake-up calls (adaptive_wait_on_address, notify_by_address) are safety-neutral and replaced by RG_NOP - no lost-wake-up claim', 'RTM variants (hardware transactions)', 'every blocked acquirer eventually gets the lock (liveness)',
-                        'visibility of critical-section writes (memory model)'],
-        'assumptions': ['atomics are sequentially consistent', 'fewer than 2^40 simultaneous readers (the reader field does not overflow)'],
+        'trusted': ['sequentially consistent atomics (memory orders dropped)', 'closed world: m_state / m_flag / my_flag / my_atomic and the queuing_rw_mutex node words + q_tail are only touched by the functions under proof (scan-enforced)',
+                    'spin_wait_while_eq / spin_wait_until_eq: return only when the condition holds (assumed contract; helper texts pinned)', 'cxx2c rewriter',
+                    'queuing_rw_mutex: tricky_atomic_pointer wrappers, RELEASED/ACQUIRED/FLAG taken as their pinned texts (the plain atomic operation plus pointer/word casts)',
+                    'queuing_rw_mutex: backward gotos (retry / requested / waiting) are cut by a hand-written invariant encoding: assert at the label and at the backward goto, havoc of the whole model state and of every local declared in front of the label (list checked by the extractor), assume',
+                    'queuing_rw_mutex / internal lock: a spin-loop iteration that stays in the loop writes nothing (obligation C08.qrw.spin) and the rely is transitively closed, so the first iteration stands for all',
+                    'queuing_rw_mutex: the harness model code (not the sliced code) runs with pointer checks switched off by pragma; bounds checks stay on',
+                    'mutex: r1::wait_on_address may return at any time (pure interference point); timed_spin_wait_until evaluates its predicate one or more times and returns the last value; notify_by_address_one is recorded',
+                    'rw_mutex: adaptive_wait_on_address is a pure interference point; notify_by_address / notify_by_address_all are recorded',
+                    'rtm_mutex / rtm_rw_mutex: begin_transaction returns "started" or any abort code, abort_transaction ends the path (a rolled-back transaction is the path on which begin returned the code), governor::speculation_enabled arbitrary; '
+                    'the operations of the underlying spin_mutex / spin_rw_mutex are stubs that record the mode held (their protocols are the sm.* / srw.* jobs); write_flag reads false for whoever has just taken the real lock (rely; guarantee side proved)',
+                    'scoped_lock wrappers: the mutex operations are stubs that record the mode held'],
+        'drops': ['call_itt_notify / ITT_NOTIFY / machine_pause -> RG_NOP()', 'atomic_backoff -> RG_NOP()', 'std::atomic<T> -> T behind numbered ATOMIC_*_AT(site, ...) / A_<OP>(site, field, object, ...) primitives', '__TBB_ASSERT -> proof obligation',
+                  'queuing_rw_mutex: `if (T* x = e) {` -> `T* x = e; if (x) {`; `load(w)->f.store(v);` -> `{ T* nx_ = load(w); nx_->f.store(v); }`; `#if __TBB_USE_ITT_NOTIFY` resolved as built (1), `#if TBB_USE_ASSERT` as built (0)',
+                  'waitable_atomic::wait: the lambda predicate -> function-like macro with the same expression; delegated_function wrapper -> RG_NOP()'],
+        'not_decided': ['queuing_rw_mutex: the composition of the node-local facts into the global statements (active requests form a prefix of the queue, hence one writer / no reader beside a writer; grants follow queue order) is not mechanised: '
+                        'every job proves its guarantees under a rely whose clauses are guarantees of the other jobs plus the structural assumptions listed under assumptions',
+                        'queuing_rw_mutex: liveness (every blocked acquirer eventually gets the lock) beyond its safety cores (hand-over exactly once; order pin / my_prev reset / loser mark / grant; flag handshake on my_prev; internal locks released); '
+                        'F15 (jobs qrw.release.writer.loser, qrw.upgrade.loser_successor) is a lost hand-off in the UPGRADE_LOSER domain',
+                        'queuing_rw_mutex: node lifetime (a node is not touched after its owner destroyed it) beyond: no access to a successor after the hand-over grant; the node waits for the pin before it is recycled',
+                        'queuing_mutex: queue order and hand-off across more than one node (multi-node MCS protocol) beyond the node-publication and token obligations',
+                        'mutex / rw_mutex: the wake-up machinery itself (address_waiter.cpp, concurrent_monitor; property C02): decided are only the order "state word changed, then notify", which context is notified, and the re-check by the woken thread',
+                        'RTM variants: hardware semantics (a conflicting real locker aborts a transaction that has the lock word in its read set); decided is the bookkeeping around it',
+                        'visibility of critical-section writes (memory model); TSO store-buffer delays'],
+        'assumptions': ['atomics are sequentially consistent', 'fewer than 2^40 simultaneous readers (the reader field does not overflow)',
+                        'qrw A1: an active writer is the head of the queue (nothing ahead of it writes its words any more)', 'qrw A2: a queued reader whose my_prev reads null has no predecessor',
+                        'qrw A3: requests queued behind a node that is not an active reader wait: they do not unlink themselves and their state only moves READER -> READER_UNBLOCKNEXT; behind an active writer they are in WRITER / READER / READER_UNBLOCKNEXT / UPGRADE_WAITING '
+                        '(UPGRADE_LOSER only in the *.loser jobs)', 'qrw A4: the kind of a request (reader / writer) is fixed; a reader successor does not complete an upgrade, and a successor in UPGRADE_WAITING / UPGRADE_LOSER stays so, while this node is ahead of it',
+                        'qrw A5 (flag handshake): a predecessor that finds this node\'s FLAG in the my_prev word it replaces keeps its own internal lock taken until this node releases it; it rewrites my_prev only while holding its own internal lock '
+                        '(guarantee side: C08.qrw.prev, failing only in the F15 domain)', 'qrw A6: the successor that moved this node to READER_UNBLOCKNEXT is a READER request and stays its successor until granted; the successor that moved it out of UPGRADE_REQUESTED is an upgrader that waits behind it',
+                        'qrw A7 (upgrade): a predecessor that leaves as head hands over in the order pin (my_going=2), my_prev reset, [UPGRADE_LOSER mark if it is a writer that saw this node UPGRADE_WAITING], grant (my_going=1) - the order proved for release',
+                        'a request that still waits for its first grant has never flagged its my_prev'],
     }
 
 
+_REPLAY = {}
+
+
 def replay(ctx, jobname, failure):
-    exe = native.build([os.path.join(HERE, 'c08_replay.cpp')], os.path.join(ctx.work, 'c08_replay'), flags=['-fno-access-control'], link_tbb=True)
+    if os.environ.get('C08_NO_REPLAY'):      # mutation self-tests: the verdict of the verifier is what is looked at
+        return {'reproduced': False, 'detail': 'native replay switched off (C08_NO_REPLAY)'}
+    if jobname.startswith(('rtm', 'scoped')):
+        return {'reproduced': False, 'detail': 'no native recipe: hardware transactions are not available here / the wrapper obligations are about call pairing'}
+    exe = _REPLAY.get(ctx.work)
+    if not exe:
+        exe = _REPLAY[ctx.work] = native.build([os.path.join(HERE, 'c08_replay.cpp')], os.path.join(ctx.work, 'c08_replay'), flags=['-fno-access-control'], link_tbb=True)
     rc, out = native.run([exe, jobname], timeout=120)
     rep = {'cmd': exe + ' ' + jobname, 'rc': rc, 'output': out[-1500:], 'reproduced': False, 'detail': 'native recipes found no failing schedule'}
     m = re.search(r'REPRODUCED (.*)', out)
